@@ -849,7 +849,11 @@ pub fn target_grid_case(reg: &Registry, fam_name: &str, variant: &str, par: usiz
             v.extend([2 * par - 1, 2 * par + 1]);
             v
         };
-        let shapes: Vec<Shape> = if compact { vec![Shape::BlocksB2b, Shape::Blocks] } else { vec![Shape::BlocksB2b, Shape::BlocksInout, Shape::Blocks] };
+        let shapes: Vec<Shape> = if compact {
+            vec![Shape::BlocksB2b, Shape::Blocks, Shape::BackendBlocksInplace]
+        } else {
+            vec![Shape::BlocksB2b, Shape::BlocksInout, Shape::Blocks, Shape::BackendBlocksInplace, Shape::BackendBlocksInout, Shape::BackendBlockInplace]
+        };
         for shape in shapes {
             for n in ns.clone() {
                 let n = n.min(maxn);
@@ -1095,6 +1099,11 @@ pub fn target_sweep_case(reg: &Registry, fam_name: &str, seed: u64, only_variant
     let mut ops = vec![Op::New { id: 1, task: 0, fam: f, role: Role::Both, key: key.clone(), fixed: false }];
     ops.push(Op::Call { id: 1, task: 0, dir: Dir::Enc, shape: Shape::BlocksB2b, n: 3, in_off: 5, out_off: (5 + 3 * bs + 3) as u32, data: crate::workload::related_blocks(&mut rng, 3, bs) });
     ops.push(Op::Call { id: 1, task: 0, dir: Dir::Dec, shape: Shape::Block, n: 1, in_off: 1024 + 9, out_off: 1024 + 9, data: rng.bytes(bs) });
+    // the block-mode way of calling: the backend's own in-place and in-out methods through a closure
+    ops.push(Op::Call { id: 1, task: 0, dir: Dir::Dec, shape: Shape::BackendBlocksInplace, n: 5, in_off: 512 + 7, out_off: 512 + 7, data: rng.bytes(5 * bs) });
+    ops.push(Op::Call { id: 1, task: 0, dir: Dir::Enc, shape: Shape::BackendBlockInplace, n: 2, in_off: 768 + 1, out_off: 768 + 1, data: rng.bytes(2 * bs) });
+    ops.push(Op::Call { id: 1, task: 0, dir: Dir::Dec, shape: Shape::BackendBlockInplace, n: 1, in_off: 768 + 3, out_off: 768 + 3, data: rng.bytes(bs) });
+    ops.push(Op::Call { id: 1, task: 0, dir: Dir::Enc, shape: Shape::BackendBlocksInout, n: 4, in_off: 1536 + 2, out_off: (1536 + 2 + 4 * bs + 5) as u32, data: rng.bytes(4 * bs) });
     ops.push(Op::Clone { id: 2, task: 0, src: 1 });
     ops.push(Op::Drop { id: 1, task: 0 });
     ops.push(Op::Call { id: 2, task: 0, dir: Dir::Dec, shape: Shape::BlocksInout, n: 2, in_off: 2048, out_off: 2048, data: rng.bytes(2 * bs) });
